@@ -14,8 +14,9 @@
    or is orthogonal (no two entries match a common 32-bit key).  The empty table is in the domain. *)
 From Coq Require Import ZArith List Bool.
 Require Import Rig.Generated.GenTable Rig.Generated.GenTableEnums.
-Require Import Rig.Model.Base Rig.Model.Table Rig.Spec.Table.
-Require Import Rig.Proofs.TableCheck Rig.Proofs.Table Rig.Proofs.TableIns Rig.Proofs.TableOC3.
+Require Import Rig.Generated.GenTableFront.
+Require Import Rig.Model.Base Rig.Model.Table Rig.Model.TableFront Rig.Spec.Table.
+Require Import Rig.Proofs.TableCheck Rig.Proofs.Table Rig.Proofs.TableIns Rig.Proofs.TableOC3 Rig.Proofs.TableFront.
 Import ListNotations.
 Open Scope Z_scope.
 
@@ -110,6 +111,119 @@ Theorem C04_minimise_tables_route_eq :
   | TablesOutOfFuel => False
   end.
 Proof. exact minimise_tables_domain_spec. Qed.
+
+(* ---- front ends with caller-supplied arguments (Model/TableFront.v; shape re-extracted from the source
+   on every run by tools/dump_c04f.py: default methods, _identity first and its comparison, __new__) ---- *)
+
+(* the model of the default call IS the general front end at the dumped default method list *)
+Theorem C04_front_default_is_model :
+  default_method_ids = [MRde; MOc]
+  /\ (forall t tg, minimise_table_with default_method_ids t tg = minimise_table t tg)
+  /\ (forall ts tg, minimise_tables_with default_method_ids ts tg = minimise_tables ts tg).
+Proof. exact front_default_is_model. Qed.
+
+(* U -- minimise_table with ANY list of the two minimisers (any order, repeats, a single one, none): the
+   result routes like the input, is not longer and meets the target; or the error reports the best size
+   reached by _identity and the listed methods, which is above the target when at least one method is given *)
+Theorem C04_minimise_table_methods_route_eq :
+  forall ms t target,
+  minimiser_domain t ->
+  match minimise_table_with ms t target with
+  | Ok r => route_eq t r /\ len r <= len t /\ (forall tl, target = Some tl -> len r <= tl)
+  | Failed n =>
+      exists tl, target = Some tl /\ n = best_size (map run_method ms) t (len t)
+                 /\ tl <= n /\ (ms <> [] -> tl < n)
+  | OtherError | OutOfFuel => False
+  end.
+Proof. exact minimise_table_with_spec. Qed.
+
+(* R -- with methods=() the guard `ms <> []` is needed: _identity's strict `<` raises
+   MinimisationFailedError(target, final_length = target) for a table of exactly the target's length *)
+Theorem C04_minimise_table_no_methods_refuted :
+  exists t tl, minimiser_domain t /\ len t <= tl /\ minimise_table_with [] t (Some tl) = Failed tl.
+Proof. exact minimise_table_no_methods_witness. Qed.
+
+(* U -- minimise_tables with any method list: chip by chip it is minimise_table with the same methods and
+   that chip's target (empty results dropped, first failing chip's error); combine with the theorem above *)
+Theorem C04_minimise_tables_methods_per_chip :
+  forall ms ts tg,
+  NoDup (map fst ts) ->
+  match minimise_tables_with ms ts tg with
+  | TablesOk out =>
+      forall c t, In (c, t) ts ->
+        exists tl, target_for tg c = Some tl /\ minimise_table_with ms t tl = Ok (table_of out c)
+  | TablesFailed c n =>
+      exists t tl, In (c, t) ts /\ target_for tg c = Some tl /\ minimise_table_with ms t tl = Failed n
+  | TablesOther =>
+      exists c t, In (c, t) ts /\
+                  (target_for tg c = None \/ exists tl, target_for tg c = Some tl /\ minimise_table_with ms t tl = OtherError)
+  | TablesOutOfFuel =>
+      exists c t tl, In (c, t) ts /\ target_for tg c = Some tl /\ minimise_table_with ms t tl = OutOfFuel
+  end.
+Proof. exact minimise_tables_with_spec. Qed.
+
+(* U -- ordered_covering(..., no_raise=False): it raises exactly when the table it would have returned with
+   no_raise=True is longer than the target, reporting that table's length *)
+Theorem C04_ordered_covering_raise_clause :
+  forall t target,
+  minimiser_domain t ->
+  exists T A, ordered_covering t target [] true = Ok (T, A)
+    /\ route_eq_matched t T /\ len T <= len t
+    /\ ordered_covering t target [] false =
+         match target with
+         | None => Ok (T, A)
+         | Some tl => if len T >? tl then Failed (len T) else Ok (T, A)
+         end.
+Proof. exact ordered_covering_raise_spec. Qed.
+
+(* U / R -- remove_default_routes.minimise(check_for_aliases=False): correct on orthogonal tables, and
+   (as documented) not on tables with aliased entries *)
+Theorem C04_remove_default_nocheck_route_eq :
+  forall t target,
+  table32 t -> orthogonal t ->
+  exists full,
+    remove_default_nocheck t None = Ok full /\ route_eq t full /\ len full <= len t /\
+    remove_default_nocheck t target =
+      match target with
+      | None => Ok full
+      | Some tl => if tl <? len full then Failed (len full) else Ok full
+      end.
+Proof. exact remove_default_nocheck_spec. Qed.
+
+Theorem C04_remove_default_nocheck_aliased_refuted :
+  table32 ex_aliased /\ sorted_by_generality ex_aliased /\ nonempty_sources ex_aliased
+  /\ exists r, remove_default_nocheck ex_aliased None = Ok r /\ ~ route_eq ex_aliased r.
+Proof. exact remove_default_nocheck_aliased_witness. Qed.
+
+(* R -- the order guard of the domain is necessary: an overlapping table NOT listed by generality (every
+   other clause of the domain holds) has a key whose route ordered covering changes; minimise_table returns
+   it untouched only because _identity comes first.  Exact repeats of a key and mask are in the domain when
+   listed by generality (Example below); an orthogonal table cannot contain a repeat that matches a key. *)
+Theorem C04_unsorted_overlapping_refuted :
+  table32 ex_unsorted /\ nonempty_sources ex_unsorted
+  /\ exists r, oc_minimise ex_unsorted None = Ok r /\ minimise_table ex_unsorted None = Ok ex_unsorted
+               /\ ~ route_eq ex_unsorted r.
+Proof. exact unsorted_overlapping_witness. Qed.
+
+Example C04_duplicates_in_domain :
+  minimiser_domain ex_duplicates
+  /\ oc_minimise ex_duplicates None = Ok [mkEntry 1 0 15 16777216; mkEntry 4 0 14 16777216].
+Proof. exact duplicates_in_domain. Qed.
+
+(* U -- RoutingTableEntry.__new__: route and sources are sets (order and repeats of the members given do
+   not matter) and an entry built without `sources` has exactly {None}, hence a source direction *)
+Theorem C04_entry_new_set_semantics :
+  forall l l',
+  (forall r, In r l -> 0 <= r) -> (forall r, In r l' -> 0 <= r) ->
+  (forall r, In r l <-> In r l') -> bits_of l = bits_of l'.
+Proof. exact bits_of_set_semantics. Qed.
+
+Theorem C04_entry_new_default_sources :
+  forall route key mask,
+  e_sources (entry_new route key mask None) = Z.shiftl 1 none_bit
+  /\ e_sources (entry_new route key mask None) <> 0
+  /\ e_key (entry_new route key mask None) = key /\ e_mask (entry_new route key mask None) = mask.
+Proof. exact entry_new_default_sources_spec. Qed.
 
 (* The model's own bounds are not restrictions: the loop bounds of ordered covering are never reached
    (no OutOfFuel above), and the bound of the binary search of _get_insertion_index can be enlarged at
